@@ -162,6 +162,17 @@ def worker_main(argv):
   only = int(argv[6]) if len(argv) > 6 else None
   import faulthandler
   faulthandler.enable()
+  # A worker must never outlive its supervisor: a supervisor killed from outside (a time limit around the whole check) used to
+  # leave workers that hang inside the code under test spinning for hours.  Two independent guards, neither needs the GIL:
+  # the kernel kills the worker when its parent dies, and a C-level watchdog ends it a little after the supervisor's own grace.
+  try:
+    import ctypes, signal
+    ctypes.CDLL(None, use_errno=True).prctl(1, int(signal.SIGKILL), 0, 0, 0)   # PR_SET_PDEATHSIG
+    if os.getppid() == 1:
+      os._exit(4)
+  except Exception:
+    pass
+  faulthandler.dump_traceback_later(budget * 2 + 150, exit=True)
   run_worker(pid, tier, seed, wid, nw, budget, only)
   sys.stdout.flush()
   os._exit(0)   # leftover daemon / aborted threads must not keep the worker alive
